@@ -1,4 +1,4 @@
-import Refine.Lemmas.Cavity2Enlarge
+import Refine.Lemmas.Cavity2Form
 import Refine.Props.C01
 
 /-!
@@ -364,5 +364,156 @@ theorem enlargeVisible_step (g g' : Grid α) (c c' c'' : Cav) (hok : GridOK g) (
   exact (enlargeVisible_visible hχ g c c' hinv h0 h hvis).2.1 (hled H χ hχ hd)
 
 end loops
+
+
+/-! ## 3. the form functions under the history theorem -/
+
+/-- the input of an a-priori statement: a grid with consistent blank chains and adjacency, non-degenerate tets,
+    whose signed boundary chain (tets minus boundary tris) vanishes for every alternating `φ` — a conforming mesh -/
+structure MeshConf (g : Grid α) : Prop where
+  ok : GridOK g
+  tetsOrder : OrderOK g.tets
+  trisOrder : OrderOK g.tris
+  conf : ∀ (H : Type) [AddCommGroup H] (χ : Int → Int → Int → H), Alt χ → meshBd χ g = 0
+
+/-- **formEdgeSwap_ledger** (`ref_cavity_form_edge_swap`, the 3-D edge swap = cavity of the tets around an edge + the
+    chosen node, with the two boundary tris and the four segs when the edge is on the boundary).  On a conforming grid,
+    if the call returns ok with the state still unknown (anything else — `PARTITION_CONSTRAINED`, `INCONSISTENT`,
+    `BOUNDARY_CONSTRAINED`, an error status — blocks `ref_cavity_replace`), at least one tet is around the edge and no
+    tet beyond those was pulled in by a cancelling seg, then the cavity lists exactly the tets and tris around the edge
+    and satisfies the ledger equation: face list = boundary of the tet set, the faces through the edge cancelled
+    against each other and against the two boundary tris, the cone of the four segs added. -/
+theorem formEdgeSwap_ledger {φ : Int → Int → Int → G} (hφ : Alt φ) (hd : Diag φ) (g : Grid α) (hg : MeshConf g)
+    (n0 n1 node : Int) (c' : Cav) (h : formEdgeSwap g Cav.create n0 n1 node = (.ok, c')) (hs : c'.state = .unknown)
+    (hne : g.tets.having2 Tet.nodes n0 n1 ≠ [])
+    (hextra : c'.tetList = (g.tets.having2 Tet.nodes n0 n1).map fun p => (p.1 : Int)) :
+    EdgeFormed φ g n0 n1 c' ∧ LedgerEq φ g c' := by
+  have hf := formEdgeSwap_formed hφ hd g n0 n1 node c' h hs hne hextra
+  exact ⟨hf, hf.ledgerEq (edgeMatched_of_conforming hφ g n0 n1 hg.tetsOrder hg.trisOrder (hg.conf G))⟩
+
+section swappipe
+variable [Refine.Scalar α]
+
+theorem checkVisible_frame (g : Grid α) (c : Cav) :
+    (checkVisible g c).2.faces = c.faces ∧ (checkVisible g c).2.segs = c.segs ∧ (checkVisible g c).2.node = c.node ∧
+    (checkVisible g c).2.surfNode = c.surfNode ∧ (checkVisible g c).2.tetList = c.tetList ∧
+    (checkVisible g c).2.triList = c.triList := by
+  unfold checkVisible
+  split
+  · exact ⟨rfl, rfl, rfl, rfl, rfl, rfl⟩
+  · split
+    · exact ⟨rfl, rfl, rfl, rfl, rfl, rfl⟩
+    · split <;> exact ⟨rfl, rfl, rfl, rfl, rfl, rfl⟩
+
+/-- **swap_accept_conforming**: the whole pipeline of `ref_cavity_swap_tet_pass` for the chosen candidate —
+    `form_edge_swap → check_visible → replace` — on a conforming grid: if `ref_cavity_replace` accepts, the step is a
+    `CavStep2`, the new grid is again conforming (`meshBd χ = 0` for every alternating `χ` vanishing on repeated
+    nodes) and keeps the grid invariant.  (`hnd`: the live faces are non-degenerate — part of the executable
+    certificate `certOk`.) -/
+theorem swap_accept_conforming (g g' : Grid α) (hg : MeshConf g) (n0 n1 node : Int) (c1 c3 : Cav)
+    (h : formEdgeSwap g Cav.create n0 n1 node = (.ok, c1)) (hs : c1.state = .unknown)
+    (hne : g.tets.having2 Tet.nodes n0 n1 ≠ [])
+    (hextra : c1.tetList = (g.tets.having2 Tet.nodes n0 n1).map fun p => (p.1 : Int))
+    (hnd : ∀ f ∈ c1.validFaces, Nondeg f)
+    (hrep : replace g (checkVisible g c1).2 = (.ok, c3, g')) :
+    CavStep2 g g' ∧ GridOK g' ∧
+    ∀ (H : Type) [AddCommGroup H] (χ : Int → Int → Int → H), Alt χ → Diag χ → meshBd χ g' = 0 := by
+  obtain ⟨e1, e2, e3, e4, e5, e6⟩ := checkVisible_frame g c1
+  have hstep : CavStep2 g g' := by
+    refine ⟨(checkVisible g c1).2, c3, ?_, ?_, ?_, ?_, hrep⟩
+    · intro f hf; exact hnd f (by simpa [Cav.validFaces, e1] using hf)
+    · intro cell hc
+      rw [e5, hextra] at hc
+      obtain ⟨p, hp, rfl⟩ := List.mem_map.mp hc
+      exact ⟨p.2, having2_get g.tets Tet.nodes n0 n1 p hp⟩
+    · intro cell hc
+      have hφ0 : Alt (fun _ _ _ => (0 : Int)) := ⟨fun _ _ _ => rfl, fun _ _ _ => by simp⟩
+      have hd0 : Diag (fun _ _ _ => (0 : Int)) := fun _ _ => rfl
+      have hf := (formEdgeSwap_ledger hφ0 hd0 g hg n0 n1 node c1 h hs hne hextra).1
+      rw [e6, hf.tris] at hc
+      obtain ⟨p, hp, rfl⟩ := List.mem_map.mp hc
+      exact ⟨p.2, having2_get g.tris Tri.nodes n0 n1 p hp⟩
+    · intro H _ χ hχ hd
+      have hl := (formEdgeSwap_ledger hχ hd g hg n0 n1 node c1 h hs hne hextra).2
+      unfold LedgerEq ledgerVal at hl ⊢
+      simp only [Cav.validSegs, Cav.segNode, e1, e2, e3, e4, e5, e6] at hl ⊢
+      exact hl
+  refine ⟨hstep, ?_, ?_⟩
+  · have hφ0 : Alt (fun _ _ _ => (0 : Int)) := ⟨fun _ _ _ => rfl, fun _ _ _ => by simp⟩
+    exact (replace_mesh_conforming_boundary hφ0 (fun _ _ => rfl) g g' hg.ok hstep).1
+  · intro H _ χ hχ hd
+    rw [(replace_mesh_conforming_boundary hχ hd g g' hg.ok hstep).2]
+    exact hg.conf H χ hχ
+
+end swappipe
+
+
+/-! ### non-vacuity: an 8-tet star around an interior edge, and a boundary edge with two tris -/
+
+/-- build a grid from points (all owned), tets and tris -/
+def mkGrid (pts : List (Refine.Model.Geom.V3 Int)) (tets : List Tet) (tris : List Tri) : Grid Int :=
+  let g : Grid Int := pts.foldl (fun g p => (g.addNode ⟨p, true⟩).1) Grid.create
+  let g := tets.foldl (fun g t => { g with tets := (g.tets.add t).1 }) g
+  tris.foldl (fun g t => { g with tris := (g.tris.add t).1 }) g
+
+/-- edge 0-1 along z, ring 2..9 on an octagon at mid height: 8 tets `(0,1,r_k,r_k+1)`, 16 outer boundary tris -/
+def star8 : Grid Int :=
+  mkGrid [⟨0, 0, 0⟩, ⟨0, 0, 12⟩, ⟨12, 0, 6⟩, ⟨9, 9, 6⟩, ⟨0, 12, 6⟩, ⟨-9, 9, 6⟩, ⟨-12, 0, 6⟩, ⟨-9, -9, 6⟩, ⟨0, -12, 6⟩,
+      ⟨9, -9, 6⟩]
+    ((List.range 8).map fun k => ⟨0, 1, (2 + k : Nat), (2 + (k + 1) % 8 : Nat)⟩)
+    ((List.range 8).flatMap fun k =>
+      [⟨1, (2 + (k + 1) % 8 : Nat), (2 + k : Nat), 5⟩, ⟨0, (2 + k : Nat), (2 + (k + 1) % 8 : Nat), 5⟩])
+
+/-- boundary edge 0-1: open fan of 4 tets over the half ring 2..6, the two boundary tris `(0,1,2)`, `(0,6,1)` on the
+    edge with face id 7, 8 outer tris with face id 5 -/
+def fan4 : Grid Int :=
+  mkGrid [⟨0, 0, 0⟩, ⟨0, 0, 12⟩, ⟨12, 0, 6⟩, ⟨9, 9, 6⟩, ⟨0, 12, 6⟩, ⟨-9, 9, 6⟩, ⟨-12, 0, 6⟩]
+    ((List.range 4).map fun k => ⟨0, 1, (2 + k : Nat), (3 + k : Nat)⟩)
+    ([⟨0, 1, 2, 7⟩, ⟨0, 6, 1, 7⟩] ++ (List.range 4).flatMap fun k =>
+      [⟨1, (3 + k : Nat), (2 + k : Nat), 5⟩, ⟨0, (2 + k : Nat), (3 + k : Nat), 5⟩])
+
+theorem gridOK_of_valid (g : Grid Int) (h1 : SlotsInv g.tets.slots) (h2 : SlotsInv g.tris.slots)
+    (h3 : ∀ t ∈ g.tets.valid, TetNondeg t) : GridOK g :=
+  ⟨⟨h1, h2⟩, fun cell t h => h3 t (get?_mem_valid g.tets cell t () h)⟩
+
+instance (f : Face) : Decidable (Nondeg f) := by unfold Nondeg; infer_instance
+instance {β : Type} [DecidableEq β] (s : Cells β) : Decidable (OrderOK s) := by unfold OrderOK; infer_instance
+
+theorem star8_conf : MeshConf star8 :=
+  ⟨gridOK_of_valid star8 (by decide +kernel) (by decide +kernel) (by decide), by decide, by decide,
+    fun _ _ χ hχ => meshBd_zero_of_orient hχ star8 (by decide)⟩
+
+theorem fan4_conf : MeshConf fan4 :=
+  ⟨gridOK_of_valid fan4 (by decide +kernel) (by decide +kernel) (by decide), by decide, by decide,
+    fun _ _ χ hχ => meshBd_zero_of_orient hχ fan4 (by decide)⟩
+
+
+/-- hypotheses of `formEdgeSwap_ledger`, `swap_accept_conforming`, `certified_step`: the 8-tet star, swap of the
+    interior edge 0-1 from node 2 — status ok, state unknown, 8 tets listed, certificate ok, visible, replace accepted
+    (8 tets out, 12 in) -/
+example :
+    (formEdgeSwap star8 Cav.create 0 1 2).1 = .ok ∧ (formEdgeSwap star8 Cav.create 0 1 2).2.state = .unknown ∧
+    star8.tets.having2 Tet.nodes 0 1 ≠ [] ∧
+    (formEdgeSwap star8 Cav.create 0 1 2).2.tetList = (star8.tets.having2 Tet.nodes 0 1).map (fun p => (p.1 : Int)) ∧
+    (∀ f ∈ (formEdgeSwap star8 Cav.create 0 1 2).2.validFaces, Nondeg f) ∧
+    certOk star8 (formEdgeSwap star8 Cav.create 0 1 2).2 = true ∧
+    (@replace Int star8 (@checkVisible Int intScalar star8 (formEdgeSwap star8 Cav.create 0 1 2).2).2).1 = .ok ∧
+    (@replace Int star8 (@checkVisible Int intScalar star8 (formEdgeSwap star8 Cav.create 0 1 2).2).2).2.2.tets.valid.length
+      = 12 := by
+  decide +kernel
+
+/-- the boundary edge with two tris, swap from node 4: the two boundary tris are listed, four segs (two attached to
+    the seg node 2), certificate ok, replace accepted: 4 tets out, 6 in; tris `(0,1,2)`, `(0,6,1)` out,
+    `(0,6,2)`, `(6,1,2)` in with the inherited face id 7 -/
+example :
+    (formEdgeSwap fan4 Cav.create 0 1 4).1 = .ok ∧ (formEdgeSwap fan4 Cav.create 0 1 4).2.state = .unknown ∧
+    (formEdgeSwap fan4 Cav.create 0 1 4).2.triList.length = 2 ∧
+    (formEdgeSwap fan4 Cav.create 0 1 4).2.validSegs.length = 4 ∧
+    (formEdgeSwap fan4 Cav.create 0 1 4).2.tetList = (fan4.tets.having2 Tet.nodes 0 1).map (fun p => (p.1 : Int)) ∧
+    (∀ f ∈ (formEdgeSwap fan4 Cav.create 0 1 4).2.validFaces, Nondeg f) ∧
+    certOk fan4 (formEdgeSwap fan4 Cav.create 0 1 4).2 = true ∧
+    (@replace Int fan4 (@checkVisible Int intScalar fan4 (formEdgeSwap fan4 Cav.create 0 1 4).2).2).1 = .ok ∧
+    newTris (formEdgeSwap fan4 Cav.create 0 1 4).2 = [⟨0, 6, 2, 7⟩, ⟨6, 1, 2, 7⟩] := by
+  decide +kernel
 
 end Refine.Props.C01Cavity2
